@@ -4,6 +4,7 @@ import ClairModel.Model.FeedCommon
 import ClairModel.Model.FeedFlat
 import ClairModel.Model.FeedOval
 import ClairModel.Model.FeedOsv
+import ClairModel.Model.FeedVex
 import ClairModel.Gen.Severity
 import ClairModel.Gen.Feeds
 
@@ -289,6 +290,110 @@ def pOsv : P String := do
   let advs ← many pOsvAdvisory
   pure (showOpt (osvParse osvEco (normalize codeOsvDbMode codeOsvDb codeOsvDbDefault) osvRepoURIs updater repoName advs))
 
+/-! ### VEX -/
+
+def pPurl : P PurlHelper := do
+  let k ← nat
+  if k == 0 then pure .absent
+  else if k == 1 then pure .bad
+  else
+    let type ← str
+    let ns ← str
+    let name ← str
+    let version ← str
+    let arch ← str
+    let epoch ← pOpt str
+    let tag ← pOpt str
+    let repoUrl ← pOpt str
+    pure (.ok { type, ns, name, version, arch, epoch, tag, repoUrl })
+
+def pVexProduct : P VexProduct := do
+  let id ← str
+  let cpe ← pOpt str
+  let purl ← pPurl
+  pure { id, cpe, purl }
+
+partial def pVexBranch : P VexBranch := do
+  let p ← pVexProduct
+  let subs ← many pVexBranch
+  pure (.node p subs)
+
+def pCvss : P (Option CvssEntry) := pOpt (do
+  let vector ← str
+  let valid ← pBool
+  let zero ← pBool
+  pure ({ vector, valid, zero } : CvssEntry))
+
+def pVexVuln : P VexVuln := do
+  let issued ← str
+  let refs ← many str
+  let notes ← many (do
+    let c ← str
+    let t ← str
+    pure (c, t))
+  let fixed ← many str
+  let known ← many str
+  let otherStatus ← many str
+  let threats ← many (do
+    let category ← str
+    let details ← str
+    let products ← many str
+    pure ({ category, details, products } : VexThreat))
+  let scores ← many (do
+    let v2 ← pCvss
+    let v3 ← pCvss
+    let v4 ← pCvss
+    let products ← many str
+    pure ({ v2, v3, v4, products } : VexScore))
+  let rems ← many (do
+    let url ← str
+    let products ← many str
+    pure ({ url, products } : VexRemediation))
+  pure { issued, refs, notes, fixed, known, otherStatus, threats, scores, rems }
+
+def pVexDoc : P VexDoc := do
+  let id ← str
+  let status ← str
+  let docRefs ← many (do
+    let c ← str
+    let u ← str
+    pure (c, u))
+  let tree ← pVexBranch
+  let rels ← many (do
+    let category ← str
+    let fullId ← str
+    let ref ← str
+    let relTo ← str
+    pure ({ category, fullId, ref, relTo } : VexRel))
+  let vulns ← many pVexVuln
+  pure { id, status, docRefs, tree, rels, vulns }
+
+def sortGroups (gs : List (String × List Vuln)) : List (String × List Vuln) :=
+  gs.mergeSort fun a b => compare a.1 b.1 != .gt
+
+def pVex : P String := do
+  let updater ← str
+  let cpes ← many (do
+    let c ← str
+    let n ← pOpt str
+    pure (c, n))
+  let tags ← many (do
+    let t ← str
+    let mm ← pOpt (do
+      let a ← nat
+      let b ← nat
+      pure (a, b))
+    pure (t, mm))
+  let docs ← many pVexDoc
+  let env : VexEnv := { updater, sev := normalize codeRhelMode codeRhel codeRhelDefault, repoKey := vexRepoKey,
+                        goldRepo := rhccGoldRepoKey, cpes, tags }
+  match vexParse env docs with
+  | none => pure "err"
+  | some (groups, deleted) =>
+    let recs := (sortGroups groups).flatMap fun g => g.2.map Vuln.render
+    let del := sortStrings (deleted.map hexStr)
+    pure (" ".intercalate ([s!"ok {recs.length}"] ++ recs ++ [s!"del {del.length}"] ++ del))
+
 def dispatch : P String := do
   let op ← tok
   match op with
@@ -299,6 +404,7 @@ def dispatch : P String := do
   | "aws" => pAws
   | "oval" => pOval
   | "osv" => pOsv
+  | "vex" => pVex
   | "reset" => pure "ok"
   | _ => failure
 
